@@ -34,6 +34,9 @@ from twosigma.memento.serialization import MementoCodec
 from twosigma.memento.types import MementoFunctionType
 
 
+_MAX_LEVELS_OF_WRAPPING = 64
+"""How many decorators around a function are looked through"""
+
 _description_in_progress = threading.local()
 """`functions`: the functions that the description in progress (_stable_repr) has entered"""
 
@@ -939,8 +942,9 @@ class MementoFunctionHashRule(HashRule):
         first_level: bool,
     ) -> Optional["MementoFunctionHashRule"]:
         # Memento functions may be wrapped by decorators, so check each level of wrapping
-        # to decide if this is a MementoFunctionType.
-        while True:
+        # to decide if this is a MementoFunctionType. (Not without end: an object that answers
+        # every attribute, such as a stub for a remote object, has a __wrapped__ at every level.)
+        for _ in range(_MAX_LEVELS_OF_WRAPPING):
             if isinstance(ref, MementoFunctionType):
                 return MementoFunctionHashRule(
                     parent_symbol, symbol, resolver, ref, first_level
@@ -949,6 +953,7 @@ class MementoFunctionHashRule(HashRule):
                 ref = ref.__wrapped__
             else:
                 return None
+        return None
 
     def __init__(
         self,
@@ -1238,9 +1243,14 @@ class NonMementoFunctionHashRule(HashRule):
         if not callable(ref):
             return None
         # (a function wrapped by functools.lru_cache or the like is an object without
-        # __globals__ of its own around a function that has them)
-        is_function = hasattr(ref, "__globals__") or (
-            hasattr(ref, "__wrapped__") and hasattr(inspect.unwrap(ref), "__globals__")
+        # __globals__ of its own around a function that has them; an object that answers every
+        # attribute has neither a global table nor an end of its chain of wrappers)
+        try:
+            innermost = inspect.unwrap(ref) if hasattr(ref, "__wrapped__") else ref
+        except ValueError:
+            return None
+        is_function = isinstance(getattr(ref, "__globals__", None), dict) or isinstance(
+            getattr(innermost, "__globals__", None), dict
         )
         return (
             NonMementoFunctionHashRule(
